@@ -65,7 +65,7 @@ theorem foldl_addStep_inv (rs : List Rule) : ∀ (acc : KB × Nat), MapInv acc.1
 /-- **Building keeps the map a map and never touches an existing entry**: every entry present before a
     `BuildRuleFromResource` — accepted or rejected, with duplicate names inside or across resources — is
     still there, unchanged, afterwards. -/
-theorem C16_build_preserves (ft : UInt64 → String) (kb : KB) (rules : List Rule) (h : MapInv kb.entries) :
+theorem C16_build_preserves (ft : LitText) (kb : KB) (rules : List Rule) (h : MapInv kb.entries) :
     MapInv (kb.build ft rules).1.entries ∧ ∀ e ∈ kb.entries, e ∈ (kb.build ft rules).1.entries := by
   unfold KB.build KB.addRules
   simp only
